@@ -915,3 +915,66 @@ def window_preset(ctx):
                 ctx.ok(key, f.loc(bi), 'window size derives from the dictionary size only, or is shrunk only under a test of `%s`' % f.local_name(pp))
     if n == 0:
         ctx.anchor_missing('decoder constructors taking a preset dictionary')
+
+
+@rule('PRESET-TWIN', ['C19', 'C01'], floor=1)
+def preset_twin(ctx):
+    """Writer and reader agree on when a preset dictionary counts: the LZMA2 reader waives the initial
+    dictionary reset only for a non-empty preset dictionary, so the writer may clear its "dictionary reset
+    needed" flag only under a non-emptiness test of the preset dictionary as well (an empty Some(..) would
+    otherwise produce a first chunk without reset that no reader accepts)."""
+    from lzlint.core import control_conditions
+    F = ctx.facts
+
+    def mentions_nonempty(f, conds, depth=0):
+        for cx in conds:
+            txt = expr_str(cx)
+            if 'is_empty' in txt or 'len(' in txt:
+                return True
+            # Option::filter / is_some_and / map with a closure: look into the closure body
+            for x in expr_walk(cx):
+                if x[0] == 'agg' and str(x[1]).startswith('closure'):
+                    pass
+            for x in expr_walk(cx):
+                if x[0] == 'call' and x[1].split('::')[-1] in ('filter', 'is_some_and', 'map', 'map_or', 'is_none_or'):
+                    for cl in F.closures_of(f):
+                        if any(c.name in ('is_empty', 'len') for _, _, c in cl.calls()):
+                            return True
+        return False
+    n = 0
+    # reader side (anchor): a non-emptiness test of the preset parameter exists in LZMA2Reader::new
+    rd = [f for f in F.fns if f.self_adt and last_seg(f.self_adt) == 'LZMA2Reader' and f.name == 'new']
+    reader_tests = False
+    for f in rd:
+        if any(c.name in ('is_empty', 'len') for cl in F.closures_of(f) for _, _, c in cl.calls()) or \
+                any(c.name in ('is_empty',) for _, _, c in f.calls()):
+            reader_tests = True
+    if not reader_tests:
+        return ctx.anchor_missing('non-emptiness test of the preset dictionary in LZMA2Reader::new')
+    for f in F.fns:
+        if not (f.self_adt and last_seg(f.self_adt) == 'LZMA2Writer' and f.kind != 'closure'):
+            continue
+        prov = Prov(f)
+        for bi, b in enumerate(f.blocks):
+            if b['cleanup']:
+                continue
+            for si, st in enumerate(b['stmts']):
+                if st['k'] != 'assign' or st['lhs']['p']:
+                    continue
+                nm = f.locals[st['lhs']['l']].get('name') or ''
+                if 'dict_reset' not in nm:
+                    continue
+                v = prov.rvalue(st['rv'], 0, '%d:%d' % (bi, si))
+                if not (v[0] == 'const' and v[2] in (0, False)):
+                    continue
+                n += 1
+                key = '%s:reset-waived-only-for-nonempty-preset' % f.key
+                conds = [cx for _, cx in control_conditions(f, bi, prov)] + [cx for _, _, cx in guards_of(f, bi, prov)]
+                if mentions_nonempty(f, conds):
+                    ctx.ok(key, f.loc(bi, si), 'the flag is cleared under a non-emptiness test of the preset dictionary')
+                else:
+                    ctx.violation(key, f.loc(bi, si), 'the writer clears `%s` for any Some(preset dictionary), the reader waives the reset only for a '
+                                  'non-empty one: with an empty preset dictionary the first chunk has no dictionary reset and the stream is '
+                                  'rejected (LZMA2:0)' % nm)
+    if n == 0:
+        ctx.anchor_missing('store clearing the dictionary-reset flag in LZMA2Writer')
